@@ -1,6 +1,7 @@
 import TrionModel.Lemmas.AsmXferRun
 import TrionModel.Props.C05Multi2
 import TrionModel.Props.C01
+import TrionModel.Props.C04
 import TrionModel.Props.C05AsmFull
 /-!
 # C05 (pipeline clause, projects with `.include`, `.global`, `.export`, `.import`) — stage 3, partial
@@ -248,6 +249,23 @@ theorem encoder_ok_decode {i : Instr} {b : Bytes} (h : encoder i = .ok b) (wf : 
     ∃ hws, Codec.encode i = .ok hws ∧ b = (Codec.toBytes hws).map (·.toUInt8) ∧ Arm.decode hws = some i := by
   obtain ⟨hws, h1, h2⟩ := encoder_ok_encode h
   exact ⟨hws, h1, h2, Codec.enc_sound i hws h1 wf⟩
+
+/-- C05 ∘ C04 ∘ C01  What `InstrGen` means at SPECIFICATION level.  `InstrGen` itself is a statement about the MODEL: the
+model's fresh assembly over the final table completes and the model's `encoder` accepts.  Composed with C04 (`build_wf`: an
+instruction the front end completes is well-formed) and C01 (`enc_sound`: the encoding of a well-formed instruction decodes,
+by the architecture's own decoder `Arm.decode`, to that instruction): the reference bytes `instrFinal` are the little-endian
+halfwords `hws` of an ARMv6-M encoding that DECODES to the instruction the statement denotes over the final table. -/
+theorem InstrGen.spec {t : Table} {addr : Nat} {name : Bytes} {tpl : Instr} {args : List Arg}
+    (hm : Front.mnemonic name = some tpl) (h : InstrGen encoder t addr tpl args) :
+    ∃ fs2 hws, Front.assemble ⟨addr, tpl, 0, args⟩ (frontEval t) true = (fs2, .completed) ∧
+      Codec.encode fs2.instr = .ok hws ∧
+      instrFinal encoder t addr tpl args = (Codec.toBytes hws).map (·.toUInt8) ∧ Arm.decode hws = some fs2.instr := by
+  obtain ⟨fs2, b, h1, h2, h3⟩ := h.final
+  have hb : Front.build addr name args (frontEval t) true = .completed fs2.instr := by
+    simp only [Front.build, hm, h1]
+  have wf := Front.build_wf addr name args (frontEval t) true fs2.instr hb
+  obtain ⟨hws, e1, e2, e3⟩ := encoder_ok_decode h2 wf
+  exact ⟨fs2, hws, h1, e1, by rw [h3, e2], e3⟩
 
 /-- C05 (no placeholder survives; the bytes ARE the encodings — STRONG form of `every_statement_placed_asm_scope_partial`).
 Every emitting statement `s` of the flattened program stands with its reference bytes at its reference address, `s` is the
